@@ -60,6 +60,76 @@ func init() {
 		Floor: map[string]int{"v2": 1, "root": 1},
 		Run:   runR1710,
 	})
+	core.Register(&core.Rule{
+		ID: "R10.8", Generated: true,
+		Title: "nested hashers hash into the hash they are given",
+		Text: "In every generated package: a function literal with a parameter of type fnv1a.Hash (the per-entry hasher handed to fnv1a.AddMap / AddArray) passes that parameter — never a Hash captured from outside the literal — to every fnv1a call in its body. " +
+			"AddMap hashes each entry into its own sub-hash and combines the sub-hashes in key order; a body that writes to the enclosing hash mixes the values in in map iteration order, so the hash of a record with a map of collections changes between calls.",
+		Props: []string{"C10", "C09"},
+		Floor: map[string]int{"corpus": 2},
+		Run:   runR108,
+	})
+}
+
+func runR108(c *core.Ctx) {
+	if c.Corpus.Failure != "" {
+		return
+	}
+	isHash := func(t types.Type) bool {
+		nn := namedOf(t)
+		return nn != nil && nn.Obj().Name() == "Hash" && nn.Obj().Pkg() != nil && strings.HasSuffix(nn.Obj().Pkg().Path(), "/fnv1a")
+	}
+	n := 0
+	for _, p := range c.M.Roots {
+		rel := c.M.Rel(p.PkgPath)
+		inf := p.TypesInfo
+		for _, file := range p.Syntax {
+			for _, d := range file.Decls {
+				fd, ok := d.(*ast.FuncDecl)
+				if !ok || fd.Body == nil {
+					continue
+				}
+				for _, lit := range core.AllFuncLits(fd.Body) {
+					var own types.Object
+					for _, fl := range lit.Type.Params.List {
+						for _, nm := range fl.Names {
+							if o := inf.Defs[nm]; o != nil && isHash(o.Type()) {
+								own = o
+							}
+						}
+					}
+					if own == nil {
+						continue
+					}
+					n++
+					var foreign []string
+					ast.Inspect(lit.Body, func(x ast.Node) bool {
+						if inner, ok := x.(*ast.FuncLit); ok && inner != lit {
+							// a nested hasher has its own parameter; its body is judged on its own
+							for _, a := range inner.Type.Params.List {
+								for _, nm := range a.Names {
+									if o := inf.Defs[nm]; o != nil && isHash(o.Type()) {
+										return false
+									}
+								}
+							}
+						}
+						id, ok := x.(*ast.Ident)
+						if !ok {
+							return true
+						}
+						if o, isVar := inf.Uses[id].(*types.Var); isVar && o != own && isHash(o.Type()) && !(core.ObjPos(o) > lit.Pos() && core.ObjPos(o) < lit.End()) {
+							foreign = append(foreign, c.M.Position(id.Pos()))
+						}
+						return true
+					})
+					c.Check(len(foreign) == 0, rel, core.DeclName(fd), fmt.Sprintf("nested hasher #%d writes to the hash it was given", ordinal(fd, lit)), lit.Pos(), "",
+						"the hasher uses the enclosing hash at "+strings.Join(foreign, ", ")+" instead of its own parameter: entries are mixed in in map iteration order")
+				}
+			}
+		}
+	}
+	c.Note("%d nested hashers", n)
 }
 
 func runR1710(c *core.Ctx) {
